@@ -217,6 +217,14 @@ def check_statement(toks, dialect):
     elif prv is not None and (kw(prv, 'FROM', 'JOIN') or prv.text == ',') and t.text not in defined and \
         not (nxt is not None and nxt.text in ('.', '(')):
       problems.append('WITH table %s is read at offset %d before it is defined' % (t.text, t.pos))
+  # names the compiler generates for WITH tables (t_<n>_<Predicate>) must be defined in the statement
+  for k in range(start, n):
+    t = toks[k]
+    if t.kind == 'id' and re.match(r't_\d+_\w+$', t.text) and t.text not in with_all:
+      prv = toks[k - 1] if k >= 1 else None
+      nxt = toks[k + 1] if k + 1 < n else None
+      if prv is not None and (kw(prv, 'FROM', 'JOIN') or prv.text == ',') and nxt is not None and kw(nxt, 'AS'):
+        problems.append('WITH table %s is read at offset %d but defined nowhere in the statement' % (t.text, t.pos))
   return problems + _resolve(toks, start, dialect, with_all)
 
 
